@@ -123,7 +123,7 @@ CTOR_FIELD_TY = {
 }
 STRUCTS = {"SerBDD": (["topvar", "low", "high"], "Ser.SerBdd"), "SDDAnd": (["prime", "sub"], "Ser.SddAnd"),
            "CompiledCNF": (["ptr", "sz"], None), "BDDSerializer": (["nodes", "roots"], "Ser.BddTable"),
-           "VTreeSerializer": (["root"], None)}
+           "VTreeSerializer": (["root"], None), "SDDSerializer": (["nodes", "roots"], "Ser.SddTable")}
 
 
 class Cfg:
@@ -147,9 +147,11 @@ class Cx:
     def __init__(self, cfg, env, st, ret, counter, aux, pure=False, loop=None, fuel=None):
         self.cfg, self.env, self.st, self.ret, self.counter, self.aux = cfg, dict(env), st, ret, counter, aux
         self.pure, self.loop, self.fuel = pure, loop, fuel
+        self.mutual = []
 
     def fork(self, **kw):
         c = Cx(self.cfg, self.env, self.st, self.ret, self.counter, self.aux, self.pure, self.loop, self.fuel)
+        c.mutual = self.mutual
         c.__dict__.update(kw)
         return c
 
@@ -178,9 +180,46 @@ def lean_enum_ty(en, cx):
 
 
 # ------------------------------------------------------------------ patterns
+def sdd_view(pat, cx):
+    """SddPtr patterns: PtrTrue/PtrFalse/Var(l,p) and the node views BDD(b)|ComplBDD(b) ↦ .bdd c l i lo hi,
+    Reg(o)|Compl(o) ↦ .dec c i es (b, o become views: b.label()/low()/high(), o.iter(); SddPtr::BDD(b) ↦ .bdd false …)"""
+    alts = pat[1] if pat[0] == "por" else [pat]
+    if not all(a[0] == "pctor" and len(a[1]) == 2 and a[1][0] == "SddPtr" for a in alts):
+        return None
+    names = {a[1][1] for a in alts}
+    if len(alts) == 1 and names <= {"PtrTrue", "PtrFalse"} and not alts[0][2]:
+        return (".tru" if names == {"PtrTrue"} else ".fls"), {}
+    if len(alts) == 1 and names == {"Var"} and len(alts[0][2]) == 2:
+        t1, b1 = P(alts[0][2][0], cx, V("", "Nat"))
+        t2, b2 = P(alts[0][2][1], cx, V("", "Bool"))
+        b1.update(b2)
+        return ".lit %s %s" % (t1, t2), b1
+    for fam, kind in (({"BDD", "ComplBDD"}, "bdd"), ({"Reg", "Compl"}, "dec")):
+        if names <= fam and all(len(a[2]) == 1 and a[2][0][0] in ("pvar", "pwild") for a in alts):
+            bn = {a[2][0][1] for a in alts if a[2][0][0] == "pvar"}
+            if len(bn) > 1 or len(alts) != len(names):
+                return None
+            cflag = cx.fresh("c") if len(names) == 2 else ("false" if names <= {"BDD", "Reg"} else "true")
+            if kind == "bdd":
+                l, i, lo, hi = cx.fresh("l"), cx.fresh("i"), cx.fresh("lo"), cx.fresh("hi")
+                text = ".bdd %s %s %s %s %s" % (cflag, l, i, lo, hi)
+                view = V("(Sdd.Ptr.bdd false %s %s %s %s)" % (l, i, lo, hi), "BinarySDD",
+                         attrs={"label": V(l, "Nat"), "low": V(lo, "Sdd.Ptr"), "high": V(hi, "Sdd.Ptr")})
+            else:
+                i, es = cx.fresh("i"), cx.fresh("es")
+                text = ".dec %s %s %s" % (cflag, i, es)
+                view = V("(Sdd.Ptr.dec false %s %s)" % (i, es), "SddOr", attrs={"iter": V(es, "List (Sdd.Ptr × Sdd.Ptr)")})
+            return text, ({bn.pop(): view} if bn else {})
+    return None
+
+
 def P(pat, cx, scrut=None):
     """pattern -> (lean pattern text, {rust var: V}); `scrut` = V of the scrutinee (for type information)"""
     k = pat[0]
+    if "SddPtr" in cx.cfg.enum_ty and k in ("pctor", "por"):
+        sv_ = sdd_view(pat, cx)
+        if sv_ is not None:
+            return sv_
     if k == "pwild":
         return "_", {}
     if k == "pref":
@@ -539,6 +578,21 @@ def X(e, cx, k):
             if cx.pure:
                 raise Untranslatable("panic in a pure context")
             return "none"
+        if e[1] == "matches":
+            from rustmini_compile import Parser
+            pr = Parser(e[2])
+            scr = pr.expr()
+            pr.eat(",")
+            mp = pr.pattern()
+            if not pr.at_end():
+                raise Untranslatable("matches! with a guard")
+            sv = pure_term(scr, cx)
+            alts = mp[1] if mp[0] == "por" else [mp]
+            texts = []
+            for a_ in alts:
+                t_, b_ = P(a_, cx.fork(), sv)
+                texts.append(re.sub(r"\b[a-z]+_\d+\b", "_", t_))
+            return k(V("(match %s with | %s => true | _ => false)" % (sv.term, " | ".join(texts)), "Bool"), cx)
         if e[1] == "vec":
             from rustmini_compile import Parser
             raw = e[2]
@@ -593,6 +647,24 @@ def X(e, cx, k):
     if kind == "closure":
         raise Untranslatable("closure as a value")
     raise Untranslatable("expression kind " + kind)
+
+
+def pure_match(e, cx):
+    """`match` whose arms are all effect-free expressions, as one lean term"""
+    sv = pure_term(e[1], cx)
+    lines, ty = [], None
+    for pat, guard, body in e[2]:
+        if guard is not None:
+            raise Untranslatable("guard")
+        c = cx.fork()
+        pt, binds = P(pat, c, sv)
+        c.env.update(binds)
+        bv = pure_term(body, c)
+        ty = ty or bv.ty
+        lines.append("| %s => %s" % (pt, bv.term))
+        if pat[0] == "pwild":
+            break
+    return V("(match %s with %s)" % (sv.term, " ".join(lines)), ty)
 
 
 def arm_body(body, cx, k):
@@ -749,6 +821,14 @@ def X_call(e, cx, k):
         return rec_call(last, args, cx, k)
     if last in cfg.calls and (len(path) == 1 or path[0] in ("Self",) + tuple(cfg.self_types)):
         return gen_call(cfg.calls[last], args, cx, k)
+    if path in (["SddPtr", "BDD"], ["SddPtr", "Reg"]) and len(args) == 1 and "SddPtr" in cfg.enum_ty:
+        def vk(v, c):
+            if v.ty != ("BinarySDD" if last == "BDD" else "SddOr"):
+                raise Untranslatable("SddPtr::%s of something that is not a node view" % last)
+            return k(V(v.term, "Sdd.Ptr"), c)
+        return X(args[0], cx, vk)
+    if path == ["SDDOr"] and len(args) == 1:
+        return X(args[0], cx, k)
     ev = enum_of(path, cx)
     if ev:
         en, var = ev
@@ -762,6 +842,45 @@ def X_call(e, cx, k):
         lty = lean_enum_ty("BottomUpPlan", cx)
         return Xs(list(args), cx, lambda vs, c: k(V("(%s.%s %s)" % (lty, ctor, " ".join(paren(v.term) for v in vs)), lty), c))
     raise Untranslatable("call of %s" % "::".join(path))
+
+
+def elems_map(lv, cl, cx, k):
+    """`elems.iter().map(|and| { …calls with the &mut state… }).collect()`: a second function of a mutual block,
+    structurally recursive over the element list; returns the list of results next to the `&mut` state"""
+    cfg = cx.cfg
+    if len(cl[1]) != 1 or cl[1][0][0] != "pvar":
+        raise Untranslatable("closure parameter of the element map")
+    pn = cl[1][0][1]
+    body = cl[2]
+    for n in vars_in(body):
+        if isinstance(cx.env.get(n), V) and n not in cfg.muts and n != pn and n not in [p for p, _ in cfg.params]:
+            raise Untranslatable("the element closure captures the local `%s`" % n)
+    name = "%s_elems" % cfg.lean
+    if any(a.startswith("def " + name) for a in cx.mutual):
+        raise Untranslatable("two element maps")
+    sub = Cx(cfg, {}, None, None, cx.counter, cx.aux)
+    sub.mutual = cx.mutual
+    for m in cfg.muts:
+        sub.env[m] = V(m, cx.env[m].ty)
+    p_, s_, rest_ = sub.fresh("p"), sub.fresh("s"), sub.fresh("rest")
+    sub.env[pn] = V("(%s, %s)" % (p_, s_), "Sdd.Ptr × Sdd.Ptr", attrs={"prime": V(p_, "Sdd.Ptr"), "sub": V(s_, "Sdd.Ptr")})
+    rty = [None]
+
+    def endk(v, c):
+        rty[0] = v.ty
+        ms = [c.env[m].term for m in cfg.muts]
+        r2 = c.fresh("r")
+        new = [c.fresh(m) for m in cfg.muts]
+        return "match %s %s %s with\n| none => none\n| some (%s) => some (%s)" % (
+            name, rest_, " ".join(ms), ", ".join([r2] + new), ", ".join(["%s :: %s" % (v.term, r2)] + new))
+    sub.ret = None
+    btext = SEQ(body[1], body[2], sub, endk) if body[0] == "block" else X(body, sub, endk)
+    mut_decl = "".join(" (%s : %s)" % (m, cx.env[m].ty) for m in cfg.muts)
+    mut_tys = " × ".join(cx.env[m].ty for m in cfg.muts)
+    cx.mutual.append("def %s (xs : List (Sdd.Ptr × Sdd.Ptr))%s :\n    Option (List %s × %s) :=\n  match xs with\n  | [] => some ([], %s)\n  | (%s, %s) :: %s =>\n%s\n"
+                     % (name, mut_decl, paren(rty[0] or "_"), mut_tys, ", ".join(cfg.muts), p_, s_, rest_, ind(btext, 4)))
+    call = "%s %s %s" % (name, paren(lv.term), " ".join(cx.env[m].term for m in cfg.muts))
+    return bind_effect(call, cx, k, "List " + paren(rty[0] or "_"), False, mut_names=cfg.muts, tail_ok=False)
 
 
 def X_mcall(e, cx, k):
@@ -835,6 +954,9 @@ def X_mcall(e, cx, k):
                 lam, _ = closure_lambda(args[1], c2, [iv.ty, elem_ty(ty)])
                 return k(V("%s.foldl (%s) %s" % (paren(t), lam, paren(iv.term)), iv.ty), c2)
             return X(args[0], c, fk)
+        if name == "map" and len(args) == 1 and args[0][0] == "closure" and ty == "List (Sdd.Ptr × Sdd.Ptr)" and cfg.muts \
+                and not c.pure:
+            return elems_map(rv, args[0], c, k)
         if name == "map" and len(args) == 1 and args[0][0] == "closure":
             lam, rty = closure_lambda(args[0], c, [elem_ty(ty)])
             return k(V("%s.map (%s)" % (paren(t), lam), ("List " + paren(rty)) if rty else None), c)
@@ -1118,6 +1240,14 @@ def SEQ(stmts, tail, cx, k):
             cx.env[p_[1]] = ("closure", e)
             return rest(cx)
 
+        if e[0] == "match" and pat[0] == "pvar":
+            try:
+                pv = pure_match(e, cx)
+            except Untranslatable:
+                pv = None
+            if pv is not None:
+                return bind_local(pat[1], pv, cx, rest)
+
         def lk(v, c):
             if v.ty is None:
                 ty = rust_ty(ann, cfg) or (cfg.local_ty.get(pat[1]) if pat[0] == "pvar" else None)
@@ -1187,6 +1317,10 @@ def translate(cfg, src):
     params = [p for p in parse_params(ps) if p != "self" or cfg.self_param]
     if params != [p for p, _ in cfg.params]:
         raise Untranslatable("parameters are %r, expected %r" % (params, [p for p, _ in cfg.params]))
+    for pn, req in cfg.param_req.items():   # the mapping of a parameter depends on its Rust type
+        seg = [x for x in re.split(r",(?![^<]*>)", ps) if re.match(r"\s*(mut\s+)?%s\s*:" % pn, x)]
+        if not seg or not re.search(req, seg[0].replace(" ", "").replace("\n", "")):
+            raise Untranslatable("the Rust type of parameter `%s` is not the one the mapping table is for (%s)" % (pn, req))
     if cfg.inner_fn:     # a nested `fn helper(..)` inside the body
         ps, body = find_fn(body, cfg.inner_fn)
         params = [p for p in parse_params(ps) if p != "self"]
@@ -1216,7 +1350,13 @@ def translate(cfg, src):
         decl += " (%s : %s)" % (cfg.state, cfg.state_ty)
     decl += "".join(" (%s : %s)" % (p, t) for p, t in cfg.params)
     out = "".join(a + "\n" for a in aux)
-    out += "def %s %s :\n    Option (%s) :=\n%s\n" % (cfg.lean, decl.strip(), cfg.ret_tuple_ty, ind(text))
+    main = "def %s %s :\n    Option (%s) :=\n%s\n" % (cfg.lean, decl.strip(), cfg.ret_tuple_ty, ind(text))
+    if cx.mutual:
+        out += "mutual\n" + main + "".join(cx.mutual) + "end\n"
+    elif cfg.fallback_extra:
+        raise Untranslatable("the element map of the decision-node case was not found")
+    else:
+        out += main
     return out
 
 
@@ -1235,7 +1375,7 @@ def strip_inner_fns(body):
 def mk(**kw):
     d = dict(implicit="", binders=[], params=[], impl_hint=None, inner_fn=None, inner_params=None, strip_inner_fn=False,
              state=None, state_ty="σ", muts=[], enum_ty={}, self_enum=None, self_types=[], rec=None, rec_names=[],
-             calls={}, ops=False, perm=False, local_ty={}, sets_as_lists=False, self_param=False)
+             calls={}, ops=False, perm=False, local_ty={}, sets_as_lists=False, self_param=False, fallback_extra="", param_req={})
     d.update(kw)
     c = Cfg(**d)
 
@@ -1295,6 +1435,7 @@ FUNS += [
        ret_ty="Ser.SerVTree", ret_tuple_ty="Ser.SerVTree", fallback="fun (t : Sdd.VTree) => some (Ser.serVtree t)"),
     mk(key="BDDSerializer::serialize_helper", file="src/serialize/ser_bdd.rs", rust="serialize_helper", impl_hint=r"impl\s+BDDSerializer",
        lean="serBddHelper", params=[("bdd", "Bdd.Ptr"), ("table", T_BDD), ("nodes", N_BDD)], muts=["table", "nodes"],
+       param_req={"table": r"HashMap<&('a)?BddNode(<'a>)?,usize>", "nodes": r"Vec<SerBDD>"},
        enum_ty={"BddPtr": "Bdd.Ptr", "SerBDDPtr": "Ser.SerBddPtr"}, rec="structural", rec_names=["serialize_helper"],
        self_types=["BDDSerializer"], ret_ty="Ser.SerBddPtr", ret_tuple_ty="Ser.SerBddPtr × %s × %s" % (T_BDD, N_BDD),
        fallback="fun (bdd : Bdd.Ptr) (table : %s) (nodes : %s) => some ((Ser.serBddAux bdd ⟨nodes, table⟩).1, "
@@ -1321,6 +1462,25 @@ FUNS += [
        impl_hint=r"impl\s+LogicalSExpr", lean="uniqueVariables", params=[("self", "Ser.LogicalSExpr")], self_param=True,
        enum_ty=SE, rec="structural", rec_names=["unique_variables"], sets_as_lists=True, ret_ty="List String",
        ret_tuple_ty="List String", local_ty={}, fallback="fun (e : Ser.LogicalSExpr) => some (Ser.LogicalSExpr.uniqueVariables e)"),
+]
+
+T_SDD, N_SDD = "List (Sdd.Ptr × Nat)", "Array Ser.SddOr"
+SDD_RET = "(Ser.serSddAux d ⟨nodes, table⟩).1, (Ser.serSddAux d ⟨nodes, table⟩).2.table, (Ser.serSddAux d ⟨nodes, table⟩).2.nodes"
+FUNS += [
+    mk(key="SDDSerializer::serialize_helper", file="src/serialize/ser_sdd.rs", rust="serialize_helper", impl_hint=r"impl\s+SDDSerializer",
+       lean="serSddHelper", params=[("sdd", "Sdd.Ptr"), ("table", T_SDD), ("nodes", N_SDD)], muts=["table", "nodes"],
+       param_req={"table": r"HashMap<SddPtr(<'a>)?,usize>", "nodes": r"Vec<SDDOr>"},
+       enum_ty={"SddPtr": "Sdd.Ptr", "SerSDDPtr": "Ser.SerSddPtr"}, rec="structural", rec_names=["serialize_helper"],
+       self_types=["SDDSerializer"], ret_ty="Ser.SerSddPtr", ret_tuple_ty="Ser.SerSddPtr × %s × %s" % (T_SDD, N_SDD),
+       fallback="fun (d : Sdd.Ptr) (table : %s) (nodes : %s) => some (%s)" % (T_SDD, N_SDD, SDD_RET),
+       fallback_extra="abbrev serSddHelper_elems := fun (es : List (Sdd.Ptr × Sdd.Ptr)) (table : %s) (nodes : %s) => "
+                      "some ((Ser.serSddElems es ⟨nodes, table⟩).1, (Ser.serSddElems es ⟨nodes, table⟩).2.table, "
+                      "(Ser.serSddElems es ⟨nodes, table⟩).2.nodes)\n" % (T_SDD, N_SDD)),
+    mk(key="SDDSerializer::from_sdd", file="src/serialize/ser_sdd.rs", rust="from_sdd", impl_hint=r"impl\s+SDDSerializer",
+       lean="serSdd", params=[("sdd", "Sdd.Ptr")], enum_ty={"SddPtr": "Sdd.Ptr", "SerSDDPtr": "Ser.SerSddPtr"},
+       self_types=["SDDSerializer"], local_ty={"nodes": N_SDD, "table": T_SDD},
+       calls={"serialize_helper": dict(lean="serSddHelper", muts=["table", "nodes"], ret_ty="Ser.SerSddPtr")},
+       ret_ty="Ser.SddTable", ret_tuple_ty="Ser.SddTable", fallback="fun (d : Sdd.Ptr) => some (Ser.serSdd d)"),
 ]
 
 HEADER = """import RsddModel.Lemmas.TieCompileAux
@@ -1359,7 +1519,8 @@ def main():
         except Exception as e:   # never crash: every failure is a per-function fallback
             msg = ("%s: %s" % (type(e).__name__, e)) if not isinstance(e, Untranslatable) else str(e)
             msg = msg.replace("\n", " ")
-            defs.append("-- TRANSLATOR ROUTE NOT AVAILABLE for %s: %s\nabbrev %s := %s\n" % (cfg.rust, msg, cfg.lean, cfg.fallback))
+            defs.append("-- TRANSLATOR ROUTE NOT AVAILABLE for %s: %s\nabbrev %s := %s\n%s" % (cfg.rust, msg, cfg.lean, cfg.fallback,
+                                                                                              cfg.fallback_extra))
             status[cfg.key] = "UNTRANSLATED (translator route not available, tied by correspondence only): %s" % msg
     write_if_changed(OUT, HEADER + "\n".join(defs) + "\nend Gen.Compile\n")
     return status
